@@ -12,6 +12,23 @@ import (
 // filters are the named site filters a job may use to restrict where
 // deviations are placed.
 var filters = map[string]explore.Filter{
+	// keepalive: scheduling deviations only at the keepalive machinery
+	// (ticker.go, the send loop's selects, the receive loop's ticker
+	// resets); faults everywhere.
+	"keepalive": func(a vrt.Alt) bool {
+		if a.Kind == vrt.KFault || a.Kind == vrt.KDeliver || a.Kind == vrt.KEnvSched {
+			return true
+		}
+		return strings.Contains(a.Site, "ticker.go") || strings.Contains(a.Site, "gbn_conn.go:4") ||
+			strings.Contains(a.Site, "gbn_conn.go:5")
+	},
+	// tickeronly: scheduling deviations only inside ticker.go.
+	"tickeronly": func(a vrt.Alt) bool {
+		if a.Kind == vrt.KFault || a.Kind == vrt.KDeliver || a.Kind == vrt.KEnvSched {
+			return true
+		}
+		return strings.Contains(a.Site, "ticker.go")
+	},
 	// nolocks: no deviation at lock/atomic points.
 	"nolocks": func(a vrt.Alt) bool {
 		return !(strings.HasSuffix(a.Site, ":Lock") || strings.HasSuffix(a.Site, ":RLock") ||
@@ -110,6 +127,115 @@ func init() {
 			{Scenario: "fullwindow/N=3", Budgets: bs(B(1, 1), B(0, 2)), Split: 2},
 			{Scenario: "fullwindow/N=20", Budgets: bs(B(0, 1)), Split: 1},
 			{Scenario: "fullwindow/N=254/extra=1", Budgets: bs(B(0, 0))},
+		},
+		quickS: 240, thoroughS: 1200,
+	}
+}
+
+func staleBatch(n int, maxLen int) []string {
+	toks := []string{"SYN", "SYNACK", "DATA", "ACK", "NACK", "FIN"}
+	var seqs []string
+	for _, a := range toks {
+		seqs = append(seqs, a)
+		if maxLen >= 2 {
+			for _, b := range toks {
+				seqs = append(seqs, a+"."+b)
+			}
+		}
+	}
+	var out []string
+	for _, dir := range []string{"staleC", "staleS"} {
+		for _, q := range seqs {
+			out = append(out, fmt.Sprintf("hs/N=%d/%s=%s", n, dir, q))
+		}
+	}
+	return out
+}
+
+func synNBatch() []string {
+	var out []string
+	for v := 0; v < 256; v++ {
+		out = append(out, fmt.Sprintf("synN/v=%d", v))
+	}
+	return out
+}
+
+func init() {
+	jobTable["C10"] = jobSet{
+		quick: []Job{
+			{Scenario: "hs/N=2", Budgets: bs(B(1, 1), B(0, 2)), Split: 1},
+			{Scenario: "hs/N=2/serverfirst", Budgets: bs(B(1, 0), B(0, 2)), Split: 1},
+			{Scenario: "hs/N=1", Budgets: bs(B(0, 1))},
+			{Scenario: "hs/N=20", Budgets: bs(B(0, 1))},
+			{Scenario: "hs/N=254", Budgets: bs(B(0, 1))},
+			{Scenario: "hs-stale(<=2 packets, either direction)", Scenarios: staleBatch(2, 2), Budgets: bs(B(0, 1))},
+			{Scenario: "synN(all 256 window bytes)", Scenarios: synNBatch(), Budgets: bs(B(0, 0))},
+		},
+		thorough: []Job{
+			{Scenario: "hs/N=2", Budgets: bs(B(2, 1), B(1, 2), B(0, 3)), Split: 2},
+			{Scenario: "hs/N=2/serverfirst", Budgets: bs(B(1, 2), B(0, 3)), Split: 2},
+			{Scenario: "hs/N=1", Budgets: bs(B(1, 1), B(0, 3)), Split: 1},
+			{Scenario: "hs/N=20", Budgets: bs(B(1, 1), B(0, 2)), Split: 1},
+			{Scenario: "hs/N=254", Budgets: bs(B(1, 1), B(0, 2)), Split: 1},
+			{Scenario: "hs-stale(<=2 packets, either direction)", Scenarios: staleBatch(2, 2), Budgets: bs(B(1, 1), B(0, 2)), Split: 1},
+			{Scenario: "synN(all 256 window bytes)", Scenarios: synNBatch(), Budgets: bs(B(1, 0))},
+		},
+		quickS: 240, thoroughS: 1500,
+	}
+	jobTable["C06"] = jobSet{
+		quick: []Job{
+			{Scenario: "prog/N=1/k=3", Budgets: bs(B(1, 1), B(0, 3)), Split: 1},
+			{Scenario: "prog/N=2/k=4", Budgets: bs(B(1, 1), B(0, 2)), Split: 1},
+			{Scenario: "prog/kind=bidi/N=2/k=2", Budgets: bs(B(1, 1), B(0, 2)), Split: 1},
+			{Scenario: "prog/N=2/k=3/adaptive", Budgets: bs(B(0, 2)), Split: 1},
+			{Scenario: "prog/N=2/k=3/ka=2s,1s", Budgets: bs(B(0, 2)), Split: 1},
+		},
+		thorough: []Job{
+			{Scenario: "prog/N=1/k=3", Budgets: bs(B(1, 3), B(2, 1)), Split: 2},
+			{Scenario: "prog/N=2/k=4", Budgets: bs(B(1, 2), B(0, 3)), Split: 2},
+			{Scenario: "prog/kind=bidi/N=2/k=2", Budgets: bs(B(1, 2), B(0, 3)), Split: 2},
+			{Scenario: "prog/N=2/k=3/adaptive", Budgets: bs(B(1, 2), B(0, 3)), Split: 2},
+			{Scenario: "prog/N=2/k=3/ka=2s,1s", Budgets: bs(B(1, 1), B(0, 3)), Split: 2},
+			{Scenario: "prog/N=2/k=3/ka=5s,3s", Budgets: bs(B(0, 2)), Split: 1},
+		},
+		quickS: 300, thoroughS: 1800,
+	}
+	jobTable["C13"] = jobSet{
+		quick: []Job{
+			{Scenario: "kalive/lat=0s", Budgets: bs(B(1, 0)), Split: 1},
+			{Scenario: "kalive/lat=250ms", Budgets: bs(B(1, 0)), Split: 1},
+			{Scenario: "kalive/lat=499ms", Budgets: bs(B(1, 0)), Split: 1},
+			{Scenario: "kadead/N=2", Budgets: bs(B(0, 1)), Split: 1},
+			{Scenario: "kadead/N=2/kaside=c/k=1", Budgets: bs(B(0, 1)), Split: 1},
+			{Scenario: "kadead/N=2/kaside=s/k=1", Budgets: bs(B(0, 1)), Split: 1},
+			{Scenario: "kadead/N=1/ka=2s,1s", Budgets: bs(B(0, 1)), Split: 1},
+			{Scenario: "kadead/N=1/ka=2s,1s/k=2/until=5s", Budgets: bs(B(1, 1)), Filter: "tickeronly", Split: 1},
+		},
+		thorough: []Job{
+			{Scenario: "kadead/N=1/ka=2s,1s/k=2", Budgets: bs(B(1, 1)), Filter: "keepalive", Split: 2},
+			{Scenario: "kalive/lat=0s", Budgets: bs(B(2, 0)), Filter: "keepalive", Split: 2},
+			{Scenario: "kalive/lat=250ms", Budgets: bs(B(2, 0)), Filter: "keepalive", Split: 2},
+			{Scenario: "kalive/lat=499ms", Budgets: bs(B(2, 0)), Filter: "keepalive", Split: 2},
+			{Scenario: "kalive/ka=5s,3s/lat=1499ms/idle=100s", Budgets: bs(B(1, 0)), Split: 1},
+			{Scenario: "kadead/N=2", Budgets: bs(B(1, 1)), Split: 2},
+			{Scenario: "kadead/N=2/ka=7s,3s", Budgets: bs(B(0, 1)), Split: 1},
+			{Scenario: "kadead/N=2/kaside=c/k=1", Budgets: bs(B(1, 1)), Split: 2},
+			{Scenario: "kadead/N=2/kaside=s/k=1", Budgets: bs(B(1, 1)), Split: 2},
+			{Scenario: "kadead/N=1/ka=2s,1s", Budgets: bs(B(1, 1)), Split: 2},
+			{Scenario: "kadead/N=3/ka=2s,1s/k=6", Budgets: bs(B(0, 1)), Split: 1},
+		},
+		quickS: 300, thoroughS: 1500,
+	}
+	jobTable["C07"] = jobSet{
+		quick: []Job{
+			{Scenario: "inject/N=2", Budgets: bs(B(0, 1)), Split: 1},
+			{Scenario: "synN(all 256 window bytes)", Scenarios: synNBatch(), Budgets: bs(B(0, 0))},
+		},
+		thorough: []Job{
+			{Scenario: "inject/N=2", Budgets: bs(B(1, 1)), Split: 2},
+			{Scenario: "inject/N=1", Budgets: bs(B(0, 1)), Split: 1},
+			{Scenario: "inject/N=20", Budgets: bs(B(0, 1)), Split: 1},
+			{Scenario: "synN(all 256 window bytes)", Scenarios: synNBatch(), Budgets: bs(B(1, 0)), Split: 1},
 		},
 		quickS: 240, thoroughS: 1200,
 	}
